@@ -51,6 +51,63 @@ def parent(node):
     return getattr(node, "_parent", None)
 
 
+class _Subst(ast.NodeTransformer):
+    def __init__(self, mapping):
+        self.mapping = mapping
+
+    def visit_Name(self, node):
+        if isinstance(node.ctx, ast.Load) and node.id in self.mapping:
+            import copy as _copy
+            return ast.copy_location(_copy.deepcopy(self.mapping[node.id]), node)
+        return node
+
+
+def unroll_literal_loops(fn):
+    """a copy of the function in which every `for a, b in ((x1, y1), (x2, y2)): body` over a *literal* tuple / list is replaced by the
+    bodies with a, b substituted — the table-driven form of two parallel blocks reads like the blocks themselves.  Loops whose body
+    re-binds a loop variable, or contains break / continue, are left alone.  Line numbers are kept; parents are set on the copy."""
+    import copy as _copy
+    if not any(isinstance(l, ast.For) and isinstance(l.iter, (ast.Tuple, ast.List)) and l.iter.elts for l in ast.walk(fn)):
+        return fn
+    par = getattr(fn, "_parent", None)
+    out = _copy.deepcopy(fn, {id(par): par} if par is not None else {})     # the copy stops at the function: the parent link is shared, not copied
+
+    def expand(stmts):
+        res = []
+        for st in stmts:
+            for blk in ("body", "orelse", "finalbody"):
+                if isinstance(getattr(st, blk, None), list) and not isinstance(st, (ast.FunctionDef, ast.ClassDef, ast.AsyncFunctionDef)):
+                    setattr(st, blk, expand(getattr(st, blk)))
+            for h in getattr(st, "handlers", []) or []:
+                h.body = expand(h.body)
+            if isinstance(st, ast.For) and isinstance(st.iter, (ast.Tuple, ast.List)) and st.iter.elts and not st.orelse:
+                names = [st.target.id] if isinstance(st.target, ast.Name) else \
+                    [e.id for e in st.target.elts] if isinstance(st.target, (ast.Tuple, ast.List)) and all(isinstance(e, ast.Name) for e in st.target.elts) else None
+                rows = []
+                for el in st.iter.elts:
+                    if isinstance(st.target, ast.Name):
+                        rows.append([el])
+                    elif isinstance(el, (ast.Tuple, ast.List)) and names is not None and len(el.elts) == len(names):
+                        rows.append(list(el.elts))
+                    else:
+                        rows = None
+                        break
+                rebinding = any(isinstance(x, ast.Name) and isinstance(x.ctx, (ast.Store, ast.Del)) and names and x.id in names for b in st.body for x in ast.walk(b))
+                jumps = any(isinstance(x, (ast.Break, ast.Continue)) for b in st.body for x in ast.walk(b))
+                if names is not None and rows and not rebinding and not jumps:
+                    for row in rows:
+                        mp = dict(zip(names, row))
+                        for b in st.body:
+                            res.append(ast.fix_missing_locations(_Subst(mp).visit(_copy.deepcopy(b, {id(st): st}))))
+                    continue
+            res.append(st)
+        return res
+    out.body = expand(out.body)
+    set_parents(out)
+    out._parent = getattr(fn, "_parent", None)
+    return out
+
+
 def ancestors(node) -> Iterator[ast.AST]:
     p = parent(node)
     while p is not None:
